@@ -57,6 +57,8 @@ def run(ctx):
         opt_cases.append(("response", so, None, None))
     for m in BAD_MEAS[:3]:
         opt_cases.append(("response", "Wx", m, None))
+    for m in BAD_MEAS:
+        opt_cases.append(("response", "Wz", m, None))
     opt_cases.append(("response", "Wz", None, None))
     terms = []
     for kind, a, b, c_ in opt_cases:
